@@ -251,6 +251,10 @@ func genC16(r *vk.RNG, exotic bool) *c16src {
 				sb.WriteString(" ")
 			}
 			sb.WriteString("# " + vk.Pick(r, []string{"comment", "MOVE foo", "x 1 2", "", "#"}))
+			if r.Chance(1, 40) {
+				// a very long line (a pasted blob in a comment): no documented limit on line length
+				sb.WriteString(strings.Repeat("=", vk.Pick(r, []int{4095, 4096, 65535, 65536, 70000, 200000})))
+			}
 		}
 		if r.Chance(1, 12) {
 			sb.WriteString("\r\n")
